@@ -43,7 +43,8 @@ class HistoryLearner(Learner):
     batch: this INSTANCE understands batched calls (fmt 'ap'/'pmf' only): it answers a whole batch row-major from the state
            before the batch and makes ONE update per batch. Without the flag a batched call raises, so coba's SafeLearner
            falls back to calling it row by row - same class, different calling convention per instance.
-    info: write a value depending on the history into CobaContext.learning_info on every learn().
+    info: True -> write a value depending on the history into CobaContext.learning_info on every learn();
+          "late" -> only from the 2nd learn() on (ragged rows: the column is absent from the evaluation's first row).
     """
     def __init__(self, tag, fmt="ap", score=False, info=False, batch=False):
         self.tag = tag
@@ -112,7 +113,7 @@ class HistoryLearner(Learner):
             lst = lambda v: list(v) if is_batch(v) else v
             self.mem["trace"].append(h32(self.mem["trace"][-1] if self.mem["trace"] else 0, lst(action), lst(reward)))
             self.h = h32(self.h, lst(context), lst(action), lst(reward), lst(probability), "batch")
-            if self.info: CobaContext.learning_info["hist"] = self.h % 9973
+            self._write_info()
             return
         k = None
         if self.fmt.endswith("_kw"):
@@ -127,7 +128,14 @@ class HistoryLearner(Learner):
         self.n_learn += 1
         self.mem["trace"].append(h32(self.mem["trace"][-1] if self.mem["trace"] else 0, action, reward))
         self.h = h32(self.h, context, action, reward, probability, k)
-        if self.info:
+        self._write_info()
+
+    def _write_info(self):
+        # info True: a value on every update; info "late": only from the 2nd update on, so the evaluation's rows are RAGGED
+        # (the column first appears in a later row) - scalar valued, list-valued ragged cells are C07's
+        if self.info == "late":
+            if self.n_learn >= 2: CobaContext.learning_info["hist_late"] = self.h % 9973
+        elif self.info:
             CobaContext.learning_info["hist"] = self.h % 9973
 
     def state(self):
@@ -273,30 +281,37 @@ class TagEvaluator(Evaluator):
 
     seed None -> falls back on CobaContext.store['experiment_seed'] (like SequentialCB).
     """
-    def __init__(self, tag, stride=1, seed=None, fault_after=None, msg=None):
+    def __init__(self, tag, stride=1, seed=None, fault_after=None, msg=None, ragged=False, tail=False):
         self.tag = tag
         self.stride = stride
         self.seed = seed
         self.fault_after = fault_after
         self.msg = msg
+        self.ragged = ragged     # rows from the 2nd on carry an extra scalar field
+        self.tail = tail         # a final summary row, also for an environment without interactions
 
     @property
     def params(self):
-        return {"tag": self.tag, "stride": self.stride, "seed": self.seed}
+        return {"tag": self.tag, "stride": self.stride, "seed": self.seed, "ragged": self.ragged, "tail": self.tail}
 
     def evaluate(self, environment, learner):
         seed = self.seed if self.seed is not None else CobaContext.store.get("experiment_seed")
-        n_rows, acc, cnt = 0, 0.0, 0
+        n_rows, acc, cnt, total = 0, 0.0, 0, 0
         for i, r in _play(environment, learner, seed):
             acc += r; cnt += 1
             if cnt == self.stride:
                 if self.fault_after is not None and n_rows >= self.fault_after:
                     raise InjectedFault(self.msg)
-                yield {"reward": acc / cnt, "upto": i, "vtag": self.tag}
+                row = {"reward": acc / cnt, "upto": i, "vtag": self.tag}
+                if self.ragged and n_rows >= 1: row["late"] = n_rows
+                yield row
                 n_rows += 1
+                total += 1
                 acc, cnt = 0.0, 0
         if self.fault_after is not None:
             raise InjectedFault(self.msg)
+        if self.tail:
+            yield {"n_rows": total, "vtag": self.tag}
 
 # --------------------------------------------------------------------------------------------- LambdaSimulation functions
 def lam_ctx_vec(i):            return [i % 3, (i * 7) % 5]
